@@ -197,6 +197,10 @@ Variable progname progver : list byte.
 Hypothesis genv_nz : forall n v, genv n = Some v -> val_ok v.
 Hypothesis progname_nz : Forall nz_byte progname.
 Hypothesis progver_nz : val_ok progver.
+Variable exec_out : list byte -> exec_answer.
+Variable dir_list : list byte -> dir_answer.
+Hypothesis exec_ok : forall c o, exec_out c = ExecOut o -> Forall is_byte o /\ small o.
+Hypothesis dir_ok : forall d ns, dir_list d = DirList ns -> Forall (Forall nz_byte) ns.
 
 Lemma appname_nz : val_ok (appname_text progname progver).
 Proof.
@@ -243,22 +247,183 @@ Proof.
   - destruct (words o) as [|k [|v [|? ?]]]; try reflexivity. simpl in N. lia.
 Qed.
 
+(* ---------- %dirscan: the accumulation loop stays inside its CONFIG_BUFF block ---------- *)
+Lemma strcat_b_cstr (acc src : list byte) (rest : buf) :
+  Forall nz_byte acc -> Forall nz_byte src -> (length src <= length rest)%nat ->
+  strcat_b (cstr acc rest) src = Ok (cstr (acc ++ src) (skipn (length src) rest)).
+Proof.
+  intros Ha Hs Hl. unfold strcat_b.
+  rewrite (strlen_cstr acc rest Ha). cbn [bind].
+  rewrite skipn_cstr by lia. rewrite skipn_all. rewrite cstr_nil.
+  rewrite strcpy_run_cstr by (auto; simpl; lia). cbn [bind skipn].
+  unfold cstr at 1. rewrite firstn_app_exact by (now rewrite bytes_length).
+  unfold cstr. rewrite bytes_app, <- app_assoc. reflexivity.
+Qed.
+
+Lemma dir_join_inv names : Forall (Forall nz_byte) names ->
+  forall acc n, Forall nz_byte acc -> Z.of_nat (length acc) + n = config_buff -> 1 <= n ->
+  exists n', Forall nz_byte (dir_join names acc n) /\
+             Z.of_nat (length (dir_join names acc n)) + n' = config_buff /\ 1 <= n'.
+Proof.
+  induction names as [|nm t IH]; intros Hn acc n Ha Hsum Hn1; cbn [dir_join].
+  - exists n. auto.
+  - inversion Hn as [|? ? Hnm Ht]; subst.
+    assert (Hacc' : Forall nz_byte (acc ++ nm ++ [32])).
+    { apply Forall_app. split; [exact Ha|]. apply Forall_app. split; [exact Hnm|].
+      constructor; [unfold nz_byte; lia|constructor]. }
+    assert (Hlen' : Z.of_nat (length (acc ++ nm ++ [32])) = Z.of_nat (length acc) + Z.of_nat (length nm) + 1).
+    { rewrite !app_length. cbn [length]. lia. }
+    destruct (Z.ltb_spec (Z.of_nat (length nm) + 1) n) as [Hfit|Hno].
+    + destruct (Z.ltb_spec (n - (Z.of_nat (length nm) + 1)) 2).
+      * exists (n - (Z.of_nat (length nm) + 1)). split; [exact Hacc'|]. split; lia.
+      * apply IH; auto; lia.
+    + destruct (Z.ltb_spec n 2).
+      * exists n. auto.
+      * apply IH; auto.
+Qed.
+
+Lemma dir_join_ok names : Forall (Forall nz_byte) names -> val_ok (dir_join names [] config_buff).
+Proof.
+  intros Hn. pose proof cb_bounds.
+  destruct (dir_join_inv names Hn [] config_buff ltac:(constructor) ltac:(simpl; lia) ltac:(lia)) as (n' & A & B & C).
+  split; [exact A|]. unfold small. lia.
+Qed.
+
+Lemma dirscan_loop_exact names : Forall (Forall nz_byte) names ->
+  forall acc rest n, Forall nz_byte acc -> Z.of_nat (length acc) + n = config_buff -> 1 <= n ->
+  length (cstr acc rest) = CB ->
+  exists rest', dirscan_loop names (cstr acc rest) n = Ok (cstr (dir_join names acc n) rest') /\
+                length (cstr (dir_join names acc n) rest') = CB.
+Proof.
+  induction names as [|nm t IH]; intros Hn acc rest n Ha Hsum Hn1 Hlen; cbn [dirscan_loop dir_join].
+  - exists rest. auto.
+  - inversion Hn as [|? ? Hnm Ht]; subst. pose proof CB_eq as HCB.
+    assert (Hrl : Z.of_nat (length rest) = n - 1) by (rewrite cstr_length in Hlen; lia).
+    destruct (Z.ltb_spec (Z.of_nat (length nm) + 1) n) as [Hfit|Hno].
+    + rewrite strcat_b_cstr by (auto; lia). cbn [bind].
+      rewrite strcat_b_cstr; [| |constructor; [unfold nz_byte; lia|constructor]|].
+      2:{ apply Forall_app. split; assumption. }
+      2:{ rewrite skipn_length. simpl. lia. }
+      cbn [bind]. rewrite <- app_assoc.
+      assert (Hacc' : Forall nz_byte (acc ++ nm ++ [32])).
+      { apply Forall_app. split; [exact Ha|]. apply Forall_app. split; [exact Hnm|].
+        constructor; [unfold nz_byte; lia|constructor]. }
+      assert (Hlen' : length (cstr (acc ++ nm ++ [32]) (skipn (length [32]) (skipn (length nm) rest))) = CB).
+      { rewrite cstr_length, !app_length, !skipn_length. cbn [length]. rewrite cstr_length in Hlen. lia. }
+      destruct (Z.ltb_spec (n - (Z.of_nat (length nm) + 1)) 2).
+      * eexists. split; [reflexivity|exact Hlen'].
+      * apply IH; auto; [rewrite !app_length; cbn [length]; lia|lia].
+    + cbn [bind]. destruct (Z.ltb_spec n 2).
+      * exists rest. auto.
+      * apply IH; auto.
+Qed.
+
+(* what the list says: the names that were taken, in order, each followed by a blank *)
+Inductive subseq {A} : list A -> list A -> Prop :=
+| subseq_nil : forall l, subseq [] l
+| subseq_take : forall x s l, subseq s l -> subseq (x :: s) (x :: l)
+| subseq_skip : forall x s l, subseq s l -> subseq s (x :: l).
+Definition blanked (names : list (list byte)) : list byte := concat (map (fun nm => nm ++ [32]) names).
+
+Lemma dir_join_subseq names : forall acc n,
+  exists sel, subseq sel names /\ dir_join names acc n = acc ++ blanked sel.
+Proof.
+  induction names as [|nm t IH]; intros acc n; cbn [dir_join].
+  - exists []. split; [constructor|]. unfold blanked. cbn. now rewrite app_nil_r.
+  - destruct (Z.of_nat (length nm) + 1 <? n).
+    + destruct (n - (Z.of_nat (length nm) + 1) <? 2).
+      * exists [nm]. split; [constructor; constructor|]. unfold blanked. cbn. now rewrite app_nil_r.
+      * destruct (IH (acc ++ nm ++ [32]) (n - (Z.of_nat (length nm) + 1))) as (sel & Hs & ->).
+        exists (nm :: sel). split; [now constructor|]. unfold blanked. cbn [map concat]. now rewrite <- !app_assoc.
+    + destruct (n <? 2).
+      * exists []. split; [constructor|]. unfold blanked. cbn. now rewrite app_nil_r.
+      * destruct (IH acc n) as (sel & Hs & ->). exists sel. split; [now constructor|reflexivity].
+Qed.
+
+(* nothing is left out when all names, their blanks and the terminator fit *)
+Lemma dir_join_all names : forall acc n,
+  Z.of_nat (length (blanked names)) < n -> dir_join names acc n = acc ++ blanked names.
+Proof.
+  induction names as [|nm t IH]; intros acc n Hfit; cbn [dir_join].
+  - unfold blanked. cbn. now rewrite app_nil_r.
+  - unfold blanked in *. cbn [map concat] in *. rewrite !app_length in Hfit. cbn [length] in Hfit.
+    destruct (Z.ltb_spec (Z.of_nat (length nm) + 1) n) as [_|Hno]; [|lia].
+    destruct (Z.ltb_spec (n - (Z.of_nat (length nm) + 1)) 2) as [Hsm|Hbig].
+    + destruct t as [|nm2 t2]; [cbn; now rewrite <- !app_assoc|].
+      cbn [map concat] in Hfit. rewrite !app_length in Hfit. cbn [length] in Hfit. lia.
+    + rewrite IH by lia. now rewrite <- !app_assoc.
+Qed.
+
+Lemma builtin_dirscan_exact o rest : Forall nz_byte o ->
+  builtin_dirscan dir_list (Some (cstr o rest)) = Ok (s_dirscan dir_list (Some o)).
+Proof.
+  intros Ho. unfold builtin_dirscan, s_dirscan.
+  rewrite (num_words_exact o rest Ho). cbn [bind].
+  destruct (Z.eqb_spec (Z.of_nat (length (words o))) 1) as [E|N]; cbn [negb].
+  2:{ destruct (words o) as [|d [|? ?]]; try reflexivity. cbn [length] in N. lia. }
+  destruct (words o) as [|d [|? ?]] eqn:Ew; try (cbn [length] in E; lia).
+  rewrite (get_word_exact o rest 1 Ho) by (rewrite Ew; cbn [length]; lia).
+  rewrite Ew. change (Z.to_nat (1 - 1)) with 0%nat. cbn [bind nth_error].
+  destruct (dir_list d) as [| |names] eqn:Ed; try reflexivity.
+  pose proof (dir_ok d names Ed) as Hnames. pose proof cb_bounds as Hcb. pose proof CB_eq as HCB.
+  change (Some 0 :: repeat None (CB - 1)) with (cstr [] (repeat (@None byte) (CB - 1))).
+  destruct (dirscan_loop_exact names Hnames [] (repeat None (CB - 1)) config_buff
+              ltac:(constructor) ltac:(simpl; lia) ltac:(lia)) as (rest' & -> & _).
+  { rewrite cstr_length, repeat_length. simpl. lia. }
+  cbn [bind]. destruct (dir_join_ok names Hnames) as [Hj _].
+  rewrite (strlen_cstr _ rest' Hj). cbn [bind]. rewrite (take_str_cstr _ rest' Hj). reflexivity.
+Qed.
+
+(* ---------- %exec: what is read back from the temporary file ---------- *)
+Lemma strip_last_space_nz (s : list byte) : Forall nz_byte s -> Forall nz_byte (strip_last_space s).
+Proof.
+  intros H. unfold strip_last_space. destruct (rev s) as [|c r] eqn:E; [constructor|].
+  destruct (isspace c); [|exact H].
+  assert (Es : s = rev r ++ [c]) by (rewrite <- (rev_involutive s), E; reflexivity).
+  rewrite Es in H. apply Forall_app in H. tauto.
+Qed.
+Lemma condense_spec_nz (s : list byte) : Forall nz_byte s -> Forall nz_byte (condense_spec s).
+Proof. intros H. unfold condense_spec. apply strip_last_space_nz. now apply collapse_nz. Qed.
+
+Lemma exec_text_ok content : Forall is_byte content -> small content -> val_ok (condense_spec (cut0 content)).
+Proof.
+  intros Hb Hs. split; [apply condense_spec_nz; now apply cut0_nz|].
+  unfold small in *. pose proof (condense_spec_length (cut0 content)). pose proof (cut0_len content). lia.
+Qed.
+
+Lemma builtin_exec_exact o rest : Forall nz_byte o ->
+  builtin_exec exec_out (Some (cstr o rest)) = Ok (s_exec exec_out (Some o)).
+Proof.
+  intros Ho. unfold builtin_exec, s_exec.
+  rewrite (strlen_cstr o rest Ho). cbn [bind]. rewrite (take_str_cstr o rest Ho).
+  destruct (exec_out o) as [| |content] eqn:Ex; try reflexivity.
+  destruct content as [|c ct]; [reflexivity|].
+  destruct (exec_ok o (c :: ct) Ex) as [Hb Hs].
+  destruct (cells_cstr (c :: ct) []) as [junk E]. unfold buf, cell in *. rewrite E.
+  rewrite condense_exact by (now apply cut0_nz). cbn [bind].
+  destruct (exec_text_ok (c :: ct) Hb Hs) as [Hnz _].
+  rewrite (strlen_cstr _ [] Hnz). cbn [bind]. rewrite (take_str_cstr _ [] Hnz). reflexivity.
+Qed.
+
 Lemma call_builtin_exact code o rest st : Forall nz_byte o -> Z.of_nat (length o) < 65536 ->
-  call_builtin progname progver code (Some (cstr o rest)) st = Ok (s_builtin progname progver code (Some o) st).
+  call_builtin progname progver exec_out dir_list code (Some (cstr o rest)) st = Ok (s_builtin progname progver exec_out dir_list code (Some o) st).
 Proof.
   intros Ho Hl. unfold call_builtin, s_builtin.
   destruct (code =? 0); [reflexivity|]. destruct (code =? 1); [reflexivity|].
   destruct (code =? 4); [rewrite builtin_get_exact by assumption; reflexivity|].
   destruct (code =? 5); [rewrite builtin_put_exact by assumption; reflexivity|].
-  reflexivity.
+  destruct (code =? 2); [rewrite builtin_exec_exact by assumption; reflexivity|].
+  destruct (code =? 3); [reflexivity|].
+  rewrite builtin_dirscan_exact by assumption. reflexivity.
 Qed.
 
 Lemma call_builtin_null code st :
-  call_builtin progname progver code None st = Ok (s_builtin progname progver code None st).
+  call_builtin progname progver exec_out dir_list code None st = Ok (s_builtin progname progver exec_out dir_list code None st).
 Proof.
   unfold call_builtin, s_builtin.
   destruct (code =? 0); [reflexivity|]. destruct (code =? 1); [reflexivity|].
-  destruct (code =? 4); [reflexivity|]. destruct (code =? 5); reflexivity.
+  destruct (code =? 4); [reflexivity|]. destruct (code =? 5); [reflexivity|].
+  destruct (code =? 2); [reflexivity|]. destruct (code =? 3); reflexivity.
 Qed.
 
 (* what a built-in yields is NUL-free and short, and it keeps the store well-formed and sorted *)
@@ -270,7 +435,7 @@ Proof.
 Qed.
 
 Lemma s_builtin_ok code a st : store_ok st -> (forall o, a = Some o -> val_ok o) ->
-  let '(out, st') := s_builtin progname progver code a st in
+  let '(out, st') := s_builtin progname progver exec_out dir_list code a st in
   store_ok st' /\ (forall v, out = BStr v -> val_ok v).
 Proof.
   intros Hst Ha. unfold s_builtin.
@@ -293,7 +458,17 @@ Proof.
     destruct (words o) as [|k [|v0 [|? ?]]]; try (split; auto; discriminate).
     split; [|discriminate].
     apply put_var_ok; [exact Hst|apply Hw|apply Hw]; simpl; auto. }
-  destruct a; split; auto; discriminate.
+  destruct (code =? 2).
+  { split; auto. intros v. unfold s_exec. destruct a as [cmd|]; [|discriminate].
+    destruct (exec_out cmd) as [| |content] eqn:Ex; try discriminate.
+    destruct content as [|c ct]; [discriminate|].
+    destruct (exec_ok cmd (c :: ct) Ex) as [Hb Hs]. pose proof (exec_text_ok (c :: ct) Hb Hs) as G.
+    intros H. injection H as <-. exact G. }
+  destruct (code =? 3). { destruct a; split; auto; discriminate. }
+  split; auto. intros v. unfold s_dirscan. destruct a as [o|]; [|discriminate].
+  destruct (words o) as [|d [|? ?]]; try discriminate.
+  destruct (dir_list d) as [| |names] eqn:Ed; try discriminate.
+  intros H. injection H as <-. apply dir_join_ok. eapply dir_ok; eassumption.
 Qed.
 
 (* ---------- invariants of the list-level loop ---------- *)
@@ -372,7 +547,7 @@ Lemma lbody_ok self n :
   (forall s pre q1 q2 st, (length s < n)%nat -> Forall nz_byte s -> pre_ok pre -> store_ok st ->
                           llres_ok (self s pre q1 q2 st)) ->
   forall s pre q1 q2 st, (length s <= n)%nat -> Forall nz_byte s -> pre_ok pre -> store_ok st ->
-                         llres_ok (lbody genv progname progver self s pre q1 q2 st).
+                         llres_ok (lbody genv progname progver exec_out dir_list self s pre q1 q2 st).
 Proof.
   intros Hself s pre q1 q2 st Hn Hs Hpre Hst.
   unfold lbody. destruct s as [|c t]; [split; assumption|].
@@ -410,13 +585,13 @@ Proof.
     destruct (self (removelast a) [] false false st) as [pre1 st1|st1|e|] eqn:Ein; [| |exact I|exact Hin].
     - destruct Hin as [Hpre1 Hst1].
       pose proof (s_builtin_ok code (lfinish pre1) st1 Hst1) as Hb.
-      destruct (s_builtin progname progver code (lfinish pre1) st1) as [out st2].
+      destruct (s_builtin progname progver exec_out dir_list code (lfinish pre1) st1) as [out st2].
       destruct Hb as (Hst2 & Hout).
       { intros o E. eapply lfinish_ok; eassumption. }
       destruct out as [|[|o ot]|e]; try exact I; try (apply Hself; [lia|assumption|assumption|assumption]).
       apply Hself; [lia|assumption| |assumption]. apply pre_ok_lplace; [assumption|assumption| |discriminate]. now apply Hout.
     - pose proof (s_builtin_ok code None st1 Hin) as Hb.
-      destruct (s_builtin progname progver code None st1) as [out st2].
+      destruct (s_builtin progname progver exec_out dir_list code None st1) as [out st2].
       destruct Hb as (Hst2 & Hout); [discriminate|].
       destruct out as [|[|o ot]|e]; try exact I; try (apply Hself; [lia|assumption|assumption|assumption]).
       apply Hself; [lia|assumption| |assumption]. apply pre_ok_lplace; [assumption|assumption| |discriminate]. now apply Hout. }
@@ -433,10 +608,10 @@ Qed.
 
 Lemma lloop_ok : forall fuel s pre q1 q2 st,
   (length s < fuel)%nat ->
-  Forall nz_byte s -> pre_ok pre -> store_ok st -> llres_ok (lloop genv progname progver fuel s pre q1 q2 st).
+  Forall nz_byte s -> pre_ok pre -> store_ok st -> llres_ok (lloop genv progname progver exec_out dir_list fuel s pre q1 q2 st).
 Proof.
   induction fuel as [|f IH]; intros s pre q1 q2 st Hf Hs Hp Hst; [lia|].
-  cbn [lloop]. apply (lbody_ok (lloop genv progname progver f) (length s)); auto.
+  cbn [lloop]. apply (lbody_ok (lloop genv progname progver exec_out dir_list f) (length s)); auto.
   intros s0 pre0 q0 q3 st0 H0 H1 H2 H3. apply IH; auto. lia.
 Qed.
 
@@ -550,8 +725,8 @@ Qed.
 Lemma xbody_lbody s rest pre nbt q1 q2 st :
   (length s <= n)%nat -> Forall nz_byte s -> (length s < CB)%nat -> pre_ok pre ->
   length (bytes pre ++ nbt) = CB -> store_ok st ->
-  lrel (xbody genv progname progver xself (cstr s rest) (bytes pre ++ nbt) (Z.of_nat (length pre)) q1 q2 st)
-       (lbody genv progname progver lself s pre q1 q2 st).
+  lrel (xbody genv progname progver exec_out dir_list xself (cstr s rest) (bytes pre ++ nbt) (Z.of_nat (length pre)) q1 q2 st)
+       (lbody genv progname progver exec_out dir_list lself s pre q1 q2 st).
 Proof.
   intros Hn Hs Hcb Hpre Hlen Hst.
   pose proof CB_eq as HCB. pose proof cb_bounds as Hcbb. pose proof maxj_eq as Hm.
@@ -631,18 +806,18 @@ Proof.
       2:{ intros Hlt. pose proof (cut0_len pre1). rewrite cstr_length, repeat_length. lia. }
       cbn [bind].
       pose proof (s_builtin_ok code (lfinish pre1) st1 Hst1 ltac:(intros o E; eapply lfinish_ok; eassumption)) as Hb.
-      assert (Ecall : call_builtin progname progver code
+      assert (Ecall : call_builtin progname progver exec_out dir_list code
                         match lfinish pre1 with
                         | Some o => Some (cstr o (skipn (S (length o)) (cstr (removelast a) (repeat None (CB - length a)))))
                         | None => None
-                        end st1 = Ok (s_builtin progname progver code (lfinish pre1) st1)).
+                        end st1 = Ok (s_builtin progname progver exec_out dir_list code (lfinish pre1) st1)).
       { destruct (lfinish pre1) as [o|] eqn:Ef; [|apply call_builtin_null].
         destruct (lfinish_ok pre1 o Hpre1 Ef) as [Ho _].
         apply call_builtin_exact; [exact Ho|].
         unfold lfinish in Ef. destruct (Z.ltb_spec (Z.of_nat (length pre1)) config_buff); [|discriminate].
         injection Ef as <-. pose proof (cut0_len pre1). lia. }
       rewrite Ecall. cbn [bind]. clear Ecall.
-      destruct (s_builtin progname progver code (lfinish pre1) st1) as [out st2].
+      destruct (s_builtin progname progver exec_out dir_list code (lfinish pre1) st1) as [out st2].
       destruct Hb as (Hst2 & Hout).
       destruct out as [|[|o ot]|e]; try reflexivity.
       + apply step_skip; [lia|assumption|lia|assumption|assumption|assumption].
@@ -651,7 +826,7 @@ Proof.
     - (* the argument text could not be expanded: the function gets NULL *)
       rewrite Hin. cbn [bind]. rewrite call_builtin_null. cbn [bind].
       pose proof (s_builtin_ok code None st1 Hok ltac:(discriminate)) as Hb.
-      destruct (s_builtin progname progver code None st1) as [out st2].
+      destruct (s_builtin progname progver exec_out dir_list code None st1) as [out st2].
       destruct Hb as (Hst2 & Hout).
       destruct out as [|[|o ot]|e]; try reflexivity.
       + apply step_skip; [lia|assumption|lia|assumption|assumption|assumption].
@@ -677,12 +852,12 @@ End Step.
 Theorem xloop_lloop : forall fuel s rest pre tl q1 q2 st,
   (length s < fuel)%nat ->
   Forall nz_byte s -> (length s < CB)%nat -> pre_ok pre -> length (bytes pre ++ tl) = CB -> store_ok st ->
-  lrel (xloop genv progname progver fuel (cstr s rest) (bytes pre ++ tl) (Z.of_nat (length pre)) q1 q2 st)
-       (lloop genv progname progver fuel s pre q1 q2 st).
+  lrel (xloop genv progname progver exec_out dir_list fuel (cstr s rest) (bytes pre ++ tl) (Z.of_nat (length pre)) q1 q2 st)
+       (lloop genv progname progver exec_out dir_list fuel s pre q1 q2 st).
 Proof.
   induction fuel as [|f IH]; intros s rest pre tl q1 q2 st Hf Hs Hcb Hpre Hlen Hst; [lia|].
   cbn [xloop lloop].
-  apply (xbody_lbody (xloop genv progname progver f) (lloop genv progname progver f) (length s));
+  apply (xbody_lbody (xloop genv progname progver exec_out dir_list f) (lloop genv progname progver exec_out dir_list f) (length s));
     [ | | apply le_n | assumption | assumption | assumption | assumption | assumption].
   - intros s0 rest0 pre0 tl0 q0 q3 st0 H0 H1 H2 H3 H4 H5. apply IH; auto. lia.
   - intros s0 pre0 q0 q3 st0 H0 H1 H2 H3. apply lloop_ok; auto. lia.
